@@ -201,6 +201,33 @@ Theorem logstore_after_import_tan_same : forall ls ss ls',
 Proof. exact tan_matches_pebble_proved. Qed.
 Print Assumptions logstore_after_import_tan_same.
 
+(* life after the repair: whatever the replica's store held before the import
+   (entries, its own newer snapshots, a log compacted beyond the export index),
+   k entries appended right above the imported index are exactly what the store
+   returns above it - Pebble and Tan (whose per-replica compaction point is
+   forgotten by the import) *)
+Theorem entries_after_import_readable : forall ls ss ls' k term,
+  s_index ss <> 0 -> logdb_import ls ss = LOk ls' ->
+  ls_visible_entries (apply_lsop ls' (LSaveEntries (s_index ss + 1) k term)) (s_index ss) =
+  mk_entries (N.to_nat k) (s_index ss + 1) term.
+Proof. exact entries_after_import_readable_proved. Qed.
+Print Assumptions entries_after_import_readable.
+
+Theorem tan_entries_after_import_readable : forall t ss k term,
+  s_index ss <> 0 ->
+  ts_visible_entries (apply_tsop (tan_import_t t ss) (LSaveEntries (s_index ss + 1) k term)) (s_index ss) =
+  mk_entries (N.to_nat k) (s_index ss + 1) term.
+Proof. exact tan_entries_after_import_readable_proved. Qed.
+Print Assumptions tan_entries_after_import_readable.
+
+(* the tool writes the records into the store NewNodeHost is going to open:
+   same data directory, same low latency (WAL) directory, for every
+   NodeHostDir / WALDir *)
+Theorem tool_opens_store_where_nodehost_does : forall nhdir waldir,
+  tool_store_dirs nhdir waldir = nodehost_store_dirs nhdir waldir.
+Proof. exact tool_opens_store_where_nodehost_does_proved. Qed.
+Print Assumptions tool_opens_store_where_nodehost_does.
+
 (* tool + store: after a successful run the newest snapshot record of the
    replica is the processed record (membership = import_membership_exact) *)
 Theorem imported_record_in_store : forall inp tr ss ls,
